@@ -291,6 +291,10 @@ LIGHT_WEIGHTS = {
     'is_zero_public': 2, 'eq_public': 2, 'trunc': 2,
 }
 HEAVY_WEIGHTS = {'gcd': 3, 'lcm': 2, 'gcdext': 3, 'inverse': 2, 'gcp2': 1}
+# reduced budget for the many-subset configurations: the protocols that open a statistically masked value
+MASKED_WEIGHTS = {'lt': 4, 'le': 2, 'gt': 2, 'ge': 2, 'eq': 3, 'ne': 1, 'sgn': 3, 'sgn_lt': 2, 'sgn_eq': 1, 'abs': 3,
+                  'lsb': 4, 'mod': 5, 'floordiv': 2, 'rshift': 2, 'trunc': 3, 'gcp2': 1, 'min': 1, 'max': 1, 'sub': 2, 'add': 1}
+MANY_SUBSETS = [(7, 3, False), (6, 2, False)]          # PRSS with comb(m,t) = 35 / 15 subsets
 
 
 class Gen:
@@ -676,6 +680,304 @@ MODEL_OPS = ('sgn', 'sgn_lt', 'sgn_eq', 'is_zero', 'lsb', 'mod', 'floordiv', 'tr
 
 # ------------------------------------------------------------------------------------------------
 
+# ------------------------------------------------------------------------------------------------
+# As-coded mask bounds: extracted from the SOURCE of runtime._randoms / runtime._convert on every run
+# (fail closed) and checked in Coq against the tape-range hypotheses of the theorems.
+
+class ExtractError(Exception):
+    pass
+
+
+COQ_MASK_PREAMBLE = """
+Local Open Scope Z_scope.
+Fixpoint binom (n k : nat) : nat :=
+  match n, k with _, O => 1%nat | O, S _ => 0%nat | S n', S k' => (binom n' k' + binom n' k)%nat end.
+Definition zcomb (a b : Z) : Z := Z.of_nat (binom (Z.to_nat a) (Z.to_nat b)).
+Definition blen (x : Z) : Z := if x <=? 0 then 0 else Z.log2 x + 1.
+Definition mtpairs : list (Z * Z) :=
+  flat_map (fun m => map (fun t => (Z.of_nat m, Z.of_nat t)) (filter (fun t => Nat.ltb (2 * t) m) (seq 0 5))) (seq 1 8).
+Definition zseq (lo n : nat) : list Z := map Z.of_nat (seq lo n).
+"""
+
+
+def _unparse(n):
+    import ast
+    return ast.unparse(n)
+
+
+def coq_of_expr(node, names):
+    """Python arithmetic AST -> Coq Z expression. names: allowed Python names -> Coq variable.
+    Anything outside the small grammar raises ExtractError (fail closed)."""
+    import ast
+    def tr(n):
+        if isinstance(n, ast.Constant) and isinstance(n.value, int) and not isinstance(n.value, bool):
+            return '(%d)' % n.value
+        if isinstance(n, ast.Name) and n.id in names:
+            return names[n.id]
+        if isinstance(n, ast.BinOp):
+            a, b = tr(n.left), tr(n.right)
+            if isinstance(n.op, ast.Add):
+                return '(%s + %s)' % (a, b)
+            if isinstance(n.op, ast.Sub):
+                return '(%s - %s)' % (a, b)
+            if isinstance(n.op, ast.Mult):
+                return '(%s * %s)' % (a, b)
+            if isinstance(n.op, ast.FloorDiv):
+                return '(%s / %s)' % (a, b)
+            if isinstance(n.op, ast.LShift):
+                return '(%s * 2 ^ %s)' % (a, b)
+        if isinstance(n, ast.IfExp) and _unparse(n.test) == 'self.options.no_prss':
+            return '(if noprss then %s else %s)' % (tr(n.body), tr(n.orelse))
+        if isinstance(n, ast.Call):
+            f = _unparse(n.func)
+            if f == 'math.comb' and len(n.args) == 2 and not n.keywords:
+                return '(zcomb %s %s)' % (tr(n.args[0]), tr(n.args[1]))
+            if f == 'max' and len(n.args) == 2 and not n.keywords:
+                return '(Z.max %s %s)' % (tr(n.args[0]), tr(n.args[1]))
+            if isinstance(n.func, ast.Attribute) and n.func.attr == 'bit_length' and not n.args and not n.keywords:
+                return '(blen %s)' % tr(n.func.value)
+        raise ExtractError('expression outside the translated grammar: %s' % _unparse(n))
+    return tr(node)
+
+
+def _method(repo, name):
+    import ast, os
+    src = open(os.path.join(repo, 'mpyc', 'runtime.py')).read()
+    tree = ast.parse(src)
+    for cls in tree.body:
+        if isinstance(cls, ast.ClassDef) and cls.name == 'Runtime':
+            fs = [f for f in cls.body if isinstance(f, (ast.FunctionDef, ast.AsyncFunctionDef)) and f.name == name]
+            if len(fs) == 1:
+                return fs[0]
+    raise ExtractError('Runtime.%s not found exactly once' % name)
+
+
+def _senders_count(fn, names):
+    """`senders = tuple((uci + i) % m for i in range(<count>))` -> Coq expression of <count>."""
+    import ast
+    found = []
+    for n in ast.walk(fn):
+        if isinstance(n, ast.Assign) and len(n.targets) == 1 and _unparse(n.targets[0]) == 'senders':
+            v = n.value
+            if not (isinstance(v, ast.Call) and _unparse(v.func) == 'tuple' and len(v.args) == 1
+                    and isinstance(v.args[0], ast.GeneratorExp) and len(v.args[0].generators) == 1):
+                raise ExtractError('unexpected senders assignment: %s' % _unparse(n))
+            g = v.args[0].generators[0]
+            if not (_unparse(v.args[0].elt) == '(uci + i) % m' and isinstance(g.iter, ast.Call)
+                    and _unparse(g.iter.func) == 'range' and len(g.iter.args) == 1 and not g.ifs):
+                raise ExtractError('unexpected senders assignment: %s' % _unparse(n))
+            found.append(coq_of_expr(g.iter.args[0], names))
+    if len(set(found)) != 1:
+        raise ExtractError('senders assignment not found / not unique: %s' % found)
+    return found[0]
+
+
+def extract_randoms(repo):
+    """From Runtime._randoms: (d, effective per-contribution bound as a function of `bound` and `d`, number of dealers).
+    Also requires that the dealers draw `secrets.randbelow(bound)` and PRSS uses `self.prfs(bound)`."""
+    import ast
+    fn = _method(repo, '_randoms')
+    names = {'t': 't', 'm': 'm', 'bound': 'B', 'd': 'd'}
+    d_expr = eff_expr = None
+    for n in ast.walk(fn):
+        if isinstance(n, ast.If) and _unparse(n.test) == 'bound is None':
+            body = n.orelse
+            if len(body) != 2 or not all(isinstance(b, ast.Assign) and len(b.targets) == 1 for b in body):
+                raise ExtractError('_randoms: unexpected bound-scaling block: %s' % [_unparse(b) for b in body])
+            if _unparse(body[0].targets[0]) != 'd' or _unparse(body[1].targets[0]) != 'bound':
+                raise ExtractError('_randoms: unexpected bound-scaling block: %s' % [_unparse(b) for b in body])
+            d_expr = coq_of_expr(body[0].value, names)
+            eff_expr = coq_of_expr(body[1].value, names)
+    if d_expr is None:
+        raise ExtractError('_randoms: `if bound is None: ... else: d = ...; bound = ...` not found')
+    src = _unparse(fn)
+    for need in ('secrets.randbelow(bound)', 'self.prfs(bound)', 'thresha.pseudorandom_share(field, m, self.pid, self.prfs(bound), self._prss_uci(), n)'):
+        if need not in src:
+            raise ExtractError('_randoms: expected `%s`' % need)
+    return {'d': d_expr, 'eff': eff_expr, 'dealers': _senders_count(fn, names)}
+
+
+def extract_convert(repo):
+    """From Runtime._convert: the mask bound for non-field sources as a function of (k, l, m, t, noprss), number of dealers."""
+    import ast
+    fn = _method(repo, '_convert')
+    names = {'t': 't', 'm': 'm', 'k': 'k', 'l': 'l'}
+
+    def bound_of(stmts):
+        res = None
+        for st in stmts:
+            if isinstance(st, ast.Assign) and len(st.targets) == 1:
+                tg = _unparse(st.targets[0])
+                if tg == 'k' and _unparse(st.value) == 'self.options.sec_param':
+                    continue
+                if tg == 'l' and _unparse(st.value) == 'min(s_type.bit_length, t_type.bit_length)':
+                    continue
+                if tg == 'bound':
+                    res = coq_of_expr(st.value, names)
+                    continue
+            if isinstance(st, ast.If) and _unparse(st.test) == 'self.options.no_prss' and st.orelse:
+                a, b = bound_of(st.body), bound_of(st.orelse)
+                if a is None or b is None:
+                    raise ExtractError('_convert: a branch does not assign bound')
+                res = '(if noprss then %s else %s)' % (a, b)
+                continue
+            raise ExtractError('_convert: unexpected statement in bound selection: %s' % _unparse(st)[:80])
+        return res
+    bexpr = None
+    for n in ast.walk(fn):
+        if isinstance(n, ast.If) and _unparse(n.test) == 's_is_SecureFiniteField' and \
+                len(n.body) == 1 and _unparse(n.body[0]) == 'bound = s_field.order':
+            bexpr = bound_of(n.orelse)
+    if bexpr is None:
+        raise ExtractError('_convert: bound selection not found')
+    src = _unparse(fn)
+    for need in ('r = [secrets.randbelow(bound) for _ in range(n)]', 'prfs = self.prfs(bound)',
+                 's_r = thresha.pseudorandom_share(s_field, m, self.pid, prfs, uci, n)',
+                 't_r = thresha.pseudorandom_share(t_field, m, self.pid, prfs, uci, n)',
+                 's_r = list(map(sum, zip(*s_r)))', 't_r = list(map(sum, zip(*t_r)))'):
+        if need not in src:
+            raise ExtractError('_convert: expected `%s`' % need)
+    return {'bound': bexpr, 'dealers': _senders_count(fn, names)}
+
+
+def randoms_obligation(ex):
+    """Coq expression: list of (m, t, noprss, e) with m <= 8 for which the sum of the contributions to
+    _randoms(.., bound = 2^e) can reach 2^e, i.e. violates the theorems' hypothesis r < 2^e. Must be []."""
+    return ('filter (fun q : Z * Z * bool * Z => let \'(m, t, noprss, e) := q in let B := 2 ^ e in let d := %s in '
+            'let eff := %s in let n := if noprss then %s else zcomb m t in negb (n * (eff - 1) <? B)) '
+            '(flat_map (fun mt : Z * Z => flat_map (fun np : bool => map (fun e => (fst mt, snd mt, np, e)) (zseq 0 131)) '
+            '[true; false]) mtpairs)' % (ex['d'], ex['eff'], ex['dealers']))
+
+
+def convert_obligation(ex, k):
+    """Coq expression: list of (m, t, noprss, l) for which dealers * (bound - 1) > 2^(k+l) (hypothesis r <= 2^(k+l) of
+    convert_int_correct / convert_fxp_to_int_rounds). Must be []."""
+    return ('filter (fun q : Z * Z * bool * Z => let \'(m, t, noprss, l) := q in let k := %d in let bound := %s in '
+            'let n := if noprss then %s else zcomb m t in negb (n * (bound - 1) <=? 2 ^ (k + l))) '
+            '(flat_map (fun mt : Z * Z => flat_map (fun np : bool => map (fun l => (fst mt, snd mt, np, l)) (zseq 1 64)) '
+            '[true; false]) mtpairs)' % (k, ex['bound'], ex['dealers']))
+
+
+def check_mask_bounds(ctx, which, k=30):
+    """Extract + compile the obligations. Failures go to ctx.broken (a broken proof: the theorems' tape-range
+    hypotheses are not implied by the code as it stands). Returns True iff all obligations hold."""
+    from lib.core import REPO
+    good = True
+    try:
+        exprs, names = [], []
+        if 'randoms' in which:
+            ex = extract_randoms(REPO)
+            ctx.extra['as_coded_randoms'] = ex
+            exprs.append(randoms_obligation(ex))
+            names.append('_randoms: contributions * (per-contribution bound - 1) < bound, all (m,t) with m <= 8, PRSS/no-PRSS, bound = 2^0..2^130')
+        if 'convert' in which:
+            ex = extract_convert(REPO)
+            ctx.extra['as_coded_convert_bound'] = ex
+            exprs.append(convert_obligation(ex, k))
+            names.append('_convert: contributions * (bound - 1) <= 2^(k+l), all (m,t) with m <= 8, PRSS/no-PRSS, l = 1..64, k = %d' % k)
+    except ExtractError as e:
+        ctx.broken.append({'kind': 'mask-bound extraction', 'detail': str(e)})
+        ctx.log('mask-bound extraction FAILED (fail closed): %s' % e)
+        return False
+    res = ctx.coq_eval([], exprs, preamble=COQ_MASK_PREAMBLE, tag=ctx.prop + 'mask')
+    for nm, r in zip(names, res):
+        ctx.obligations += 1
+        if r == []:
+            ctx.discharged += 1
+            ctx.log('mask-bound obligation holds: %s' % nm)
+        else:
+            good = False
+            ctx.broken.append({'kind': 'mask-bound obligation', 'obligation': nm, 'failing (m,t,noprss,e|l) instances': str(r)[:600]})
+            ctx.log('mask-bound obligation FAILS: %s: %s' % (nm, str(r)[:300]))
+    return good
+
+
+# ------------------------------------------------------------------------------------------------
+# list-aliasing stream: call a list-taking API, mutate the caller's list in place, then open the result
+
+MUTATIONS = {
+    'reverse': lambda L: L.reverse(),
+    'overwrite': lambda L: L.__setitem__(0, L[-1]),
+    'del': lambda L: L.__delitem__(0),
+    'append': lambda L: L.append(L[0]),
+}
+
+
+def alias_apis(mpc):
+    return {
+        'sum': (lambda L: mpc.sum(L), lambda v: sum(v)),
+        'prod': (lambda L: mpc.prod(L), lambda v: math.prod(v)),
+        'all': (lambda L: mpc.all(L), None),
+        'any': (lambda L: mpc.any(L), None),
+        'in_prod_x': (lambda L: mpc.in_prod(L, L[:]), lambda v: sum(x * x for x in v)),
+        'in_prod_y': (lambda L: mpc.in_prod(L[:], L), lambda v: sum(x * x for x in v)),
+        'matrix_prod': (lambda L: mpc.matrix_prod([L], [L[:]], True)[0], lambda v: [sum(x * x for x in v)]),
+        'min': (lambda L: mpc.min(L), lambda v: min(v)),
+        'max': (lambda L: mpc.max(L), lambda v: max(v)),
+        'min_max': (lambda L: list(mpc.min_max(L)), lambda v: [min(v), max(v)]),
+        'if_else_x': (lambda L: mpc.if_else(L[1] < 0, L, L[::-1]), lambda v: list(v) if v[1] < 0 else list(v[::-1])),
+        'if_else_y': (lambda L: mpc.if_else(L[1] < 0, L[::-1], L), lambda v: list(v[::-1]) if v[1] < 0 else list(v)),
+        'if_swap_x': (lambda L: mpc.if_swap(L[1] < 0, L, L[::-1])[0], lambda v: list(v[::-1]) if v[1] < 0 else list(v)),
+        'scalar_mul': (lambda L: mpc.scalar_mul(L[0], L), lambda v: [v[0] * x for x in v]),
+        'schur_prod': (lambda L: mpc.schur_prod(L, L[:]), lambda v: [x * x for x in v]),
+        'vector_add': (lambda L: mpc.vector_add(L, L[:]), lambda v: [2 * x for x in v]),
+        'vector_sub': (lambda L: mpc.vector_sub(L[:], L), lambda v: [0 for x in v]),
+    }
+
+
+def alias_prog(l, base, bits, muts, names):
+    async def prog(mpc, mods, pid):
+        secint = mpc.SecInt(l)
+        apis = alias_apis(mpc)
+        pend = []
+        for name in names:
+            f = apis[name][0]
+            for mn in muts:
+                vals = bits if name in ('all', 'any') else base
+                L = mpc.input([secint(v if pid == 0 else 0) for v in vals], senders=0)
+                y = f(L)
+                MUTATIONS[mn](L)            # caller reuses / edits its own list before the result is awaited
+                pend.append((name, mn, mpc.output(y)))
+        out = {}
+        for name, mn, o in pend:
+            o = await o
+            out['%s/%s' % (name, mn)] = [int(v) for v in o] if isinstance(o, list) else int(o)
+        return out
+    return prog
+
+
+def alias_stream(ctx, Sim):
+    """m = 1 (asynchronous: the simulator always passes -M1) and m = 3. Expected: the values at call time."""
+    rng = ctx.rng
+    names = sorted(alias_apis(None))
+    for (m, t) in ((1, 0), (3, 1)):
+        l = rng.choice([8, 16])
+        base = [3, -5, 7, rng.choice([-2, 2, 4])]
+        bits = [1, 0, 1, 1]
+        for muts in (('reverse', 'overwrite'), ('del', 'append')):
+            sim = Sim(m=m, t=t, no_prss=rng.random() < 0.5, seed=ctx.seed * 17 + m)
+            try:
+                sim.start()
+                res = sim.run(alias_prog(l, base, bits, muts, names), idle_limit=100000, max_rounds=10 ** 12)
+                for name in names:
+                    for mn in muts:
+                        if name in ('all', 'any'):
+                            want = int(all(bits)) if name == 'all' else int(any(bits))
+                        else:
+                            want = alias_apis(None)[name][1](base)
+                        got = [r.get('%s/%s' % (name, mn)) if isinstance(r, dict) else r for r in res]
+                        ctx.case({'alias': name, 'mut': mn, 'm': m, 'l': l}, nontrivial=True, kind='alias m=%d' % m)
+                        if any(g != want for g in got):
+                            ctx.violation('alias op=%s mutation=%s m=%d' % (name, mn, m),
+                                          {'api': name, 'mutation': mn, 'm': m, 't': t, 'l': l, 'list_at_call': bits if name in ('all', 'any') else base,
+                                           'want': want, 'got_per_party': repr(got)[:400]})
+                if all(isinstance(r, dict) for r in res):
+                    sim.shutdown()
+            finally:
+                sim.close()
+
+
+
 def run(ctx):
     import os
     from lib.sim import Sim, Fifo, RandomOrder
@@ -699,7 +1001,11 @@ def run(ctx):
     ]
     rng = ctx.rng
     thorough = ctx.tier == 'thorough'
-    configs = [(m, t, np_) for (m, t) in CONFIGS + ([(7, 3)] if thorough else []) for np_ in (False, True)]
+    configs = [(m, t, np_) for (m, t) in CONFIGS + ([(7, 3), (6, 2)] if thorough else []) for np_ in (False, True)]
+    if not thorough:
+        configs += MANY_SUBSETS          # quick tier: PRSS with many subsets, reduced budget (masked protocols only)
+    # the tape-range hypotheses of the theorems against the bounds as coded in _randoms (extracted from the source)
+    mask_ok = check_mask_bounds(ctx, ['randoms'])
     ctx.rule = ('case = (program, m, t, PRSS on/off, receivers); program = random DAG of C01 operations over secint(l), '
                 'inputs shared by mpc.input from varying senders, values concentrated at -2^(l-1), 2^(l-1)-1, 0, +-1; '
                 'programs whose Python-int evaluation leaves the l-bit range are rejected; every node is opened; '
@@ -717,6 +1023,8 @@ def run(ctx):
         plan += [(8, 8, 22, LIGHT_WEIGHTS, 6, 'light'), (16, 8, 20, LIGHT_WEIGHTS, 4, 'light'),
                  (32, 8, 16, LIGHT_WEIGHTS, 3, 'light'), (64, 5, 6, LIGHT_WEIGHTS, 1, 'light'),
                  (8, 6, 3, HEAVY_WEIGHTS, 3, 'heavy'), (16, 6, 1, HEAVY_WEIGHTS, 1, 'heavy')]
+    plan += [(8, 6, 12, MASKED_WEIGHTS, 2, 'masked'), (16, 6, 12, MASKED_WEIGHTS, 2, 'masked'),
+             (32, 6, 12, MASKED_WEIGHTS, ctx.n(2, 3), 'masked')]
     programs = []
     for (l, nin, nops, w, cnt, tag) in plan:
         for _ in range(cnt):
@@ -740,18 +1048,42 @@ def run(ctx):
     per_config = {}
     for (m, t, np_) in configs:
         t0 = time.time()
-        sim = Sim(m=m, t=t, no_prss=np_, seed=ctx.seed * 131 + m * 7 + t + (1000 if np_ else 0))
+        def fresh_sim(extra=0):
+            sm = Sim(m=m, t=t, no_prss=np_, seed=ctx.seed * 131 + m * 7 + t + (1000 if np_ else 0) + 7919 * extra)
+            st = sm.start()
+            if not sm.started:
+                sm.close()
+                ctx.violation('start-failed m=%d t=%d' % (m, t), {'m': m, 't': t, 'no_prss': np_, 'start': repr(st)})
+                return None
+            return sm
+
+        def unfinished(res):
+            return any(isinstance(x, str) or (isinstance(x, tuple) and x and x[0] == 'EXC') for x in res)
+        sim = fresh_sim()
         nrun = 0
         try:
-            st = sim.start()
-            if not sim.started:
-                ctx.violation('start-failed m=%d t=%d' % (m, t), {'m': m, 't': t, 'no_prss': np_, 'start': repr(st)})
-                continue
             for pno, (tag, program, vals, kinds) in enumerate(programs):
+                if sim is None:
+                    break
+                if not thorough and (m, t, np_) in MANY_SUBSETS and tag != 'masked':
+                    continue
+                if not thorough and tag == 'masked' and (m, t, np_) not in MANY_SUBSETS + [(3, 1, False), (5, 2, False), (2, 0, True)]:
+                    continue
                 r = rng.random()
                 receivers = None if r < 0.6 or m == 1 else sorted(rng.sample(range(m), rng.randint(1, m)))
                 policy = Fifo() if rng.random() < 0.7 else RandomOrder(random.Random(rng.randrange(1 << 30)), lazy=0.1)
-                res = sim.run(make_prog(program, receivers), policy, idle_limit=300000)
+                # idle_limit detects a deadlock; max_rounds must never cut a long but progressing run
+                res = sim.run(make_prog(program, receivers), policy, idle_limit=300000, max_rounds=10 ** 12)
+                if unfinished(res):
+                    # unfinished / exception: the runtimes are in an undefined state. Re-run this program once in a
+                    # fresh simulator (FIFO delivery) before reporting, so that a harness artefact is not reported.
+                    first = repr(res)[:600]
+                    sim.close()
+                    sim = fresh_sim(extra=pno + 1)
+                    if sim is None:
+                        break
+                    res = sim.run(make_prog(program, receivers), Fifo(), idle_limit=600000, max_rounds=10 ** 12)
+                    ctx.notes.append('program %d re-run in a fresh simulator for m=%d t=%d no_prss=%s (first attempt: %s)' % (pno, m, t, np_, first[:200]))
                 nrun += 1
                 bad = check_outputs(program, vals, kinds, res, receivers, m)
                 key = {'prog': pno, 'm': m, 't': t, 'no_prss': np_, 'recv': receivers}
@@ -768,16 +1100,20 @@ def run(ctx):
                                    [[vals[y] for y in x] if isinstance(x, list) and x and not isinstance(x[0], list)
                                     else (vals[x] if not isinstance(x, list) else repr(x)) for x in ins[1]],
                                    'all_bad': [repr(b) for b in bad[:6]], 'raw': repr(res)[:1500]})
-                    if any(isinstance(x, str) or (isinstance(x, tuple) and x and x[0] == 'EXC') for x in res):
-                        break       # the runtimes are in an undefined state after an exception / deadlock
+                    if unfinished(res):
+                        sim.close()
+                        sim = fresh_sim(extra=1000 + pno)
+                        continue
                 rp = 0 if receivers is None else min(receivers)
                 if (m, t, np_) in ((3, 1, False), (1, 0, False)) and isinstance(res[rp], list) and not bad:
                     for ins in program['instrs']:
                         if ins[0] in MODEL_OPS:
                             impl_obs.append((program['l'], ins, vals, res[rp][ins[3]:ins[3] + ins[4]], m))
-            sim.shutdown()
+            if sim is not None:
+                sim.shutdown()
         finally:
-            sim.close()
+            if sim is not None:
+                sim.close()
         per_config['m=%d t=%d %s' % (m, t, 'noPRSS' if np_ else 'PRSS')] = {'programs': nrun, 'seconds': round(time.time() - t0, 1)}
         ctx.log('config m=%d t=%d no_prss=%s: %d programs in %.1fs' % (m, t, np_, nrun, time.time() - t0))
     ctx.extra['per_config'] = per_config
@@ -857,6 +1193,9 @@ def run(ctx):
         ctx.extra['model_evaluations'] = len(exprs)
         ctx.extra['model_disagreements'] = mism
         ctx.log('model vs oracle/implementation disagreements: %d of %d' % (mism, len(exprs)))
+
+    # ---- list aliasing: the caller edits its list after the call, before the result is awaited
+    alias_stream(ctx, Sim)
 
     if ctx.broken and not ctx.violations:
         ctx.unproved('C01 model/proof', {'broken': ctx.broken[:5]})
